@@ -116,6 +116,10 @@ fn run(ctx: &mut Ctx) {
     };
     let ntq = th_q.len() as u64;
     ctx.exhaustive("U3b x thresholds", u3b.subset_count() * ntq, &|i| Case::new(u3b.subset(i / ntq + 1), mk(th_q[(i % ntq) as usize])), &case_fn);
+    if ctx.tier == Tier::Thorough {
+        let s4 = SmallSubsets::abc3(4);
+        ctx.exhaustive("abc3 subsets <=4 -r", s4.count(), &|i| Case::new(s4.subset(i), mk((1, 1))), &case_fn);
+    }
     let urep = Universe::rep_families();
     ctx.exhaustive("Urep x {(1,1),(2,1)}", urep.subset_count() * 2, &|i| Case::new(urep.subset(i / 2 + 1), mk(if i % 2 == 0 { (1, 1) } else { (2, 1) })), &case_fn);
     let u1 = Universe::u1();
